@@ -28,10 +28,38 @@ def types_present(b):
 def work(item):
     bse = import_bse()
     from basis_set_exchange import validator
-    name, ver, combos = item
-    out = dict(label='%s/%s' % (name, ver), cases=[], error=None)
+    tmpd = None
+    if isinstance(item[1], dict):
+        # a generated dictionary: filed in a data directory of its own (add_basis_from_dict), so that the option pipeline that runs is
+        # get_basis' own, flags and final pruning included - not a replica of it
+        import tempfile, shutil, json
+        from basis_set_exchange import curate
+        from harness.c17 import component_of
+        label, g, combos = item
+        tmpd = tempfile.mkdtemp(prefix='bsev_c08_')
+        json.dump({'molssi_bse_schema': dict(schema_type='references', schema_version='0.1')}, open(os.path.join(tmpd, 'REFERENCES.json'), 'w'))
+        try:
+            curate.add_basis_from_dict(component_of(g), tmpd, 'sub', 'gb', 'Gen Basis', 'genfam', 'orbital', 'generated', '0', 'rev', 'source', None)
+        except Exception as e:
+            shutil.rmtree(tmpd, ignore_errors=True)
+            return dict(label=label, cases=[], error='%s: %s' % (type(e).__name__, str(e)[:80]))
+        name, ver = 'Gen Basis', '0'
+        combos = [dict(c, data_dir=tmpd) for c in combos]
+        out = dict(label=label, cases=[], error=None)
+    else:
+        name, ver, combos = item
+        out = dict(label='%s/%s' % (name, ver), cases=[], error=None)
     try:
-        b0 = bse.get_basis(name, version=ver)
+        return _work(bse, validator, name, ver, combos, out)
+    finally:
+        if tmpd:
+            import shutil
+            shutil.rmtree(tmpd, ignore_errors=True)
+
+
+def _work(bse, validator, name, ver, combos, out):
+    try:
+        b0 = bse.get_basis(name, version=ver, **({'data_dir': combos[0]['data_dir']} if combos and 'data_dir' in combos[0] else {}))
     except Exception as e:
         out['error'] = '%s: %s' % (type(e).__name__, str(e)[:80])
         return out
@@ -39,7 +67,7 @@ def work(item):
     shared, respelled = shared_facts(b0)
     seen = {}
     for kw in combos:
-        rec = dict(kw=kw, shared_prims=shared, shared_nonidentical=respelled)
+        rec = dict(kw={k: v for k, v in kw.items() if k != 'data_dir'}, shared_prims=shared, shared_nonidentical=respelled)
         try:
             r = bse.get_basis(name, version=ver, **kw)
         except Exception as e:
@@ -265,6 +293,10 @@ def run(ctx):
         gitems.append(('gen%d' % i, genbasis.gen_basis(rng), [c for c in combos_for(rng, False, 0)] + [dict(direct=f) for f in ('make_general', 'uncontract_general', 'optimize_general', 'prune_basis')]))
     for i in range(0, len(gitems), 60):
         evaluate(ctx, R, pmap(gen_work, gitems[i:i + 60]), 'manip.pipeline')
+    # the same dictionaries through the real get_basis (each filed in a data directory of its own)
+    ditems = [(lab, g, [c for c in cs if not c.get('direct')]) for lab, g, cs in gitems[:ctx.n(30, 400)]]
+    for i in range(0, len(ditems), 60):
+        evaluate(ctx, R, pmap(work, ditems[i:i + 60]), 'api.get_basis')
     R.exhaustive = False
     R.extra['store_entries'] = len(pairs)
     return R
